@@ -170,8 +170,30 @@ func (e engineErr) Error() (out string) {
 }
 
 func (s *State) invokeHostMethod(hv HostV, name string, args []Value) Value {
-	if th, ok := hv.V.(typeHandle); ok && name == "String" {
-		return th.String()
+	if th, ok := hv.V.(typeHandle); ok {
+		switch name {
+		case "String":
+			return th.String()
+		case "Kind":
+			return th.Kind()
+		case "Name":
+			return th.Name()
+		case "PkgPath":
+			return th.PkgPath()
+		case "Comparable":
+			return types.Comparable(th.T)
+		case "Elem":
+			switch u := th.T.Underlying().(type) {
+			case *types.Pointer:
+				return Iface{T: s.W.P.tRtype, V: HostV{V: typeHandle{T: u.Elem()}}}
+			case *types.Slice:
+				return Iface{T: s.W.P.tRtype, V: HostV{V: typeHandle{T: u.Elem()}}}
+			case *types.Array:
+				return Iface{T: s.W.P.tRtype, V: HostV{V: typeHandle{T: u.Elem()}}}
+			case *types.Map:
+				return Iface{T: s.W.P.tRtype, V: HostV{V: typeHandle{T: u.Elem()}}}
+			}
+		}
 	}
 	rv := reflect.ValueOf(hv.V)
 	m := rv.MethodByName(name)
@@ -566,6 +588,26 @@ func (w *Worker) numVal(id *Term) *Term {
 
 type typeHandle struct {
 	T types.Type
+}
+
+// Kind and Name make the handle usable through reflect.Type's method set.
+func (t typeHandle) Kind() uint64 { return uint64(valueHandle{v: Iface{T: t.T}}.kind()) }
+
+func (t typeHandle) Name() string {
+	if n, ok := t.T.(*types.Named); ok {
+		return n.Obj().Name()
+	}
+	if b, ok := t.T.(*types.Basic); ok {
+		return b.Name()
+	}
+	return ""
+}
+
+func (t typeHandle) PkgPath() string {
+	if n, ok := t.T.(*types.Named); ok && n.Obj().Pkg() != nil {
+		return n.Obj().Pkg().Path()
+	}
+	return ""
 }
 
 func (t typeHandle) String() string {
